@@ -1820,6 +1820,12 @@ func RunFrame(frame *py.Frame) (res py.Object, err error) {
 		return nil, py.ExceptionNewf(py.SystemError, "vm: instruction out of range - code most likely finished already")
 	}
 
+	store := frame.Context.Store()
+	if err = store.EnterCall(); err != nil {
+		return nil, err
+	}
+	defer store.LeaveCall()
+
 	var opcode OpCode
 	var arg int32
 	opcodes := frame.Code.Code
